@@ -346,8 +346,13 @@ def correspond(res, drv, batch):
             if mt != o["text"]:
                 k = next((j for j in range(min(len(mt), len(o["text"]))) if mt[j] != o["text"][j]), min(len(mt), len(o["text"])))
                 res.exact_break("to_openqasm:text", input=inp, impl=o["text"][max(0, k - 60):k + 60], model=mt[max(0, k - 60):k + 60], at=k)
-        if o["json"] is not None and enc_json(o["json"]) != rep["json"]:
-            res.exact_break("to_json", input=inp, impl=enc_json(o["json"])[:800], model=rep["json"][:800])
+        if o["json"] is not None:
+            try:
+                ej = enc_json(o["json"])
+            except Exception as ex:  # noqa: BLE001 — a dictionary without the documented fields: a different export, not a harness crash
+                ej = f"not encodable ({err_class(ex)}): {str(o['json'])[:300]}"
+            if ej != rep["json"]:
+                res.exact_break("to_json", input=inp, impl=ej[:800], model=rep["json"][:800])
         for what, cc, ee, key in (("from_openqasm", o["c2"], o.get("e_c2"), "qimp"), ("from_json", o["c3"], o.get("e_c3"), "jimp")):
             if o["text"] is None:
                 continue
